@@ -158,10 +158,11 @@ def crash_kind(o):
     txt = "\n".join(o.noise)
     if o.status == "timeout":
         return "timeout"
-    if "attempting free on address which was not malloc()-ed" in txt:
+    # free() of a pointer that never came from malloc: ASan words it differently depending on
+    # what the bytes in front of the (stack) address happen to look like
+    if ("attempting free on address which was not malloc()-ed" in txt or "alloc-dealloc-mismatch" in txt
+            or "attempting double-free" in txt or "SUMMARY: AddressSanitizer: bad-free" in txt):
         return "free-abort"
-    if "attempting double-free" in txt:
-        return "double-free"
     if "heap-buffer-overflow" in txt:
         return "heap-overflow"
     if "heap-use-after-free" in txt:
